@@ -85,7 +85,12 @@ pub fn end_call(r: Result<(), Box<dyn std::any::Any + Send>>) {
                     prop = "HARNESS";
                 }
                 let msg = format!("{} at {}", msg, loc);
-                w.violation(&[prop], "unexpected-panic", sig, format!("API call panicked: {}", msg), false);
+                if prop != "HARNESS" && w.fin_res_op_call == w.call && w.call != 0 {
+                    // the call that panicked ran a finalizer that was making garbage reachable again
+                    w.violation(&[prop, "C06"], "unexpected-panic", sig, format!("API call panicked while a finalizer was resurrecting: {}", msg), false);
+                } else {
+                    w.violation(&[prop], "unexpected-panic", sig, format!("API call panicked: {}", msg), false);
+                }
                 w.any_panic = true;
                 w.panicked_this_call = true;
             });
